@@ -40,7 +40,7 @@ structure Inv (L : Node → List RAd) (s : Net) : Prop where
 
 theorem inv_init (n mh : Nat) (L : Node → List RAd) : Inv L (init n mh L) where
   locals := fun x => initNode_locals x (L x)
-  flight := by intro f hf; simp [init] at hf
+  flight := by intro f hf; simp [init, initH] at hf
   entries := by
     intro x e he
     have hl := initNode_entries x (L x) e he
@@ -52,7 +52,7 @@ theorem inc16_step {x b l : Nat} (h : x = (b + l) % 65536) : inc16 x = (b + (l +
 /-- The invariant is preserved by every op whose replayed advertisements (if any) are coherent. -/
 theorem inv_step {L : Node → List RAd} {s : Net} {op : Op} (hI : Inv L s)
     (hrep : ∀ a b ord, op = .replay a b ord →
-      ∀ m, m ∈ replayAdvs (hopCap s.maxHops) a b (s.nodes a) ord → AdvOK L m) :
+      ∀ m, m ∈ replayAdvs (hopCap (s.maxHops a)) a b (s.nodes a) ord → AdvOK L m) :
     Inv L (step s op) where
   locals := fun x => (locals_step s op x).trans (hI.locals x)
   flight := by
@@ -107,7 +107,7 @@ theorem inv_step {L : Node → List RAd} {s : Net} {op : Op} (hI : Inv L s)
 /-- Advertisements that carry only the replayer's own local routes are coherent. -/
 theorem benign_advOK {L : Node → List RAd} {s : Net} {a b : Node} {ord : List RFrame} {m : Adv}
     (hI : Inv L s) (hb : benignOp s (.replay a b ord) = true)
-    (hm : m ∈ replayAdvs (hopCap s.maxHops) a b (s.nodes a) ord) : AdvOK L m := by
+    (hm : m ∈ replayAdvs (hopCap (s.maxHops a)) a b (s.nodes a) ord) : AdvOK L m := by
   obtain ⟨ho, hp⟩ := benign_replay hb hm
   refine ⟨by rw [ho, hp]; exact List.mem_cons_self, ?_⟩
   intro r hr
@@ -128,7 +128,7 @@ def CoherentRun (L : Node → List RAd) (s : Net) : List Op → Prop
   | [] => True
   | op :: t =>
     (∀ a b ord, op = .replay a b ord →
-      ∀ m, m ∈ replayAdvs (hopCap s.maxHops) a b (s.nodes a) ord → AdvOK L m) ∧
+      ∀ m, m ∈ replayAdvs (hopCap (s.maxHops a)) a b (s.nodes a) ord → AdvOK L m) ∧
     CoherentRun L (step s op) t
 
 theorem inv_run_coherent {L : Node → List RAd} (s : Net) (ops : List Op) (hI : Inv L s)
